@@ -70,7 +70,23 @@ def materialise(wd, d):
                 else:
                     a, b = wd["truth"][s][ci][si]
                     gt = f"{min(a, b)}/{max(a, b)}"
+                if wd.get("gt_desc") and "/" in gt and rng.random() < 0.5:
+                    a_, b_ = gt.split("/")
+                    if a_ != b_ and "." not in gt:
+                        gt = f"{b_}/{a_}"            # unphased allele order is meaningless: 1/0 is legal
+                sp = wd.get("stale_phase")
+                stale_val = "."
+                if sp and "/" in gt and "." not in gt and rng.random() < 0.5:
+                    # the input already carries (unrelated, possibly wrong) phase information from an earlier run / another tool
+                    if sp == "PS":
+                        a_, b_ = gt.split("/")
+                        gt = rng.choice([f"{a_}|{b_}", f"{b_}|{a_}"])
+                        stale_val = str(rng.choice([7, 7, v.pos + 1, 31]))
+                    elif gt.split("/")[0] != gt.split("/")[1]:
+                        stale_val = rng.choice(["7-1,7-2", "7-2,7-1"])
                 call = [gt]
+                if sp:
+                    call.append(stale_val)
                 if wd.get("pl_weak"):
                     # weak phred-scaled likelihoods favouring the written genotype by 10
                     als = [x for x in gt.replace("|", "/").split("/")]
@@ -78,7 +94,8 @@ def materialise(wd, d):
                     call.append(",".join("0" if k == g else "10" for k in range(3)))
                 calls.append(call)
             recs.append({"chrom": names[ci], "pos": v.pos + 1, "ref": v.ref, "alt": v.alt,
-                         "fmt": ["GT"] + (["PL"] if wd.get("pl_weak") else []), "calls": calls, "_k": (ci, v.pos, 0)})
+                         "fmt": ["GT"] + ([wd["stale_phase"]] if wd.get("stale_phase") else []) + (["PL"] if wd.get("pl_weak") else []),
+                         "calls": calls, "_k": (ci, v.pos, 0)})
     for x in wd.get("extra", []):
         r = dict(x)
         r["chrom"] = names[x["chrom"]]
@@ -86,7 +103,7 @@ def materialise(wd, d):
         recs.append(r)
     recs.sort(key=lambda r: r["_k"])
     vcf = W.write_vcf(os.path.join(d, "in.vcf"), samples, [(n, len(s[0])) for n, s in zip(names, seqs)], recs,
-                      fmt_keys=tuple(wd.get("fmt_keys", ("GT", "GQ", "DP", "PL", "XX"))),
+                      fmt_keys=tuple(wd.get("fmt_keys", ("GT", "GQ", "DP", "PL", "XX"))) + ((wd["stale_phase"],) if wd.get("stale_phase") else ()),
                       extra_header=wd.get("extra_header", ()))
     # ---- BAM ----
     haps = {}
@@ -96,7 +113,8 @@ def materialise(wd, d):
                 haps[(s, ci, h)] = W.Haplotype(ref, vs, [wd["truth"][s][ci][si][h] for si in range(len(vs))])
     reads = []
     n = 0
-    for r in wd["reads"]:
+    mapq_thr = wd.get("opts", {}).get("mapping_quality", 20)
+    for r in list(wd["reads"]) + list(wd.get("decoys", [])):
         ref, vs = seqs[r["chrom"]]
         hp = haps[(r["sample"], r["chrom"], r["hap"])]
         if r.get("alleles"):
@@ -139,6 +157,25 @@ def materialise(wd, d):
                 p, c, s = seg(r["first"], r["last"])
                 reads.append({"name": name, "flag": 0, "ref": r["chrom"], "pos": p, "cigar": W.cigar_str(c), "seq": s,
                               "rg": "rg_" + r["sample"]})
+                # DECOYS: alignments the reader must not use (their alleles are arbitrary): below the mapping quality
+                # threshold, secondary, duplicate, supplementary
+                dk = r.get("decoy")
+                if dk == "lowmapq":
+                    reads[-1]["mapq"] = rng.randint(0, mapq_thr - 1)
+                elif dk:
+                    reads[-1]["flag"] = {"secondary": 256, "duplicate": 1024, "supplementary": 2048}[dk]
+    if mapq_thr != 20:
+        for x in reads:
+            x.setdefault("mapq", rng.choice([mapq_thr, mapq_thr, mapq_thr + 1, 60]))
+    rgs = [{"ID": "rg_" + s, "SM": s} for s in samples]
+    if wd.get("opts", {}).get("ignore_rg"):
+        # --ignore-read-groups (one sample): read groups are absent or name somebody else
+        rgs = [{"ID": "rg_other", "SM": "somebody_else"}]
+        for x in reads:
+            if rng.random() < 0.5:
+                x["rg"] = "rg_other"
+            else:
+                x.pop("rg", None)
     # one read that covers no variant at all (left margin of the first chromosome), so that the BAM is
     # never empty: whatshap refuses a BAM without reads, "no read support" must still be expressible
     ref0 = seqs[0][0]
@@ -163,10 +200,8 @@ def materialise(wd, d):
         for r in second:
             r["name"] = ren[r["name"]]
         if second:
-            bam2 = W.write_bam(os.path.join(d, "reads2.bam"), [(n_, len(s[0])) for n_, s in zip(names, seqs)], second,
-                               [{"ID": "rg_" + s, "SM": s} for s in samples])
-    bam = W.write_bam(os.path.join(d, "reads.bam"), [(n_, len(s[0])) for n_, s in zip(names, seqs)], reads,
-                      [{"ID": "rg_" + s, "SM": s} for s in samples])
+            bam2 = W.write_bam(os.path.join(d, "reads2.bam"), [(n_, len(s[0])) for n_, s in zip(names, seqs)], second, rgs)
+    bam = W.write_bam(os.path.join(d, "reads.bam"), [(n_, len(s[0])) for n_, s in zip(names, seqs)], reads, rgs)
     ped = None
     if wd.get("ped"):
         ped = W.write_ped(os.path.join(d, "fam.ped"), wd["ped"])
@@ -206,6 +241,8 @@ def run_phase(wd, d, paths, vcf_in=None, out_name="out.vcf", phase_inputs=None, 
             samples=o.get("samples"),
             chromosomes=o.get("chromosomes"),
             only_snvs=o.get("only_snvs", False),
+            mapping_quality=o.get("mapping_quality", 20),
+            ignore_read_groups=o.get("ignore_rg", False),
             max_coverage=o.get("max_coverage", 15),
             distrust_genotypes=o.get("distrust", False),
             ped=paths["ped"] if o.get("ped") else None,
@@ -359,6 +396,23 @@ def rand_world(rng, nsamples=1, nchroms=1, ped=None, kinds=("snv", "snv", "snv",
 
 # ----------------------------------------------------------------------------------------------
 # one run -> one "PhaseRun" event (everything as small integers)
+def add_decoys(rng, w, p_each=0.5):
+    """Alignments the reader must ignore, with arbitrary alleles; optionally a non-default --mapping-quality.  The truth
+    of the world is unaffected: the statement's reads are the usable alignments."""
+    o = w.setdefault("opts", {})
+    if rng.random() < 0.5:
+        o["mapping_quality"] = rng.choice([1, 5, 30, 50])
+    dec = []
+    for r in w["reads"]:
+        if r.get("tight") is None and not r.get("gap") and rng.random() < p_each:
+            n = r["last"] - r["first"] + 1
+            dec.append({"sample": r["sample"], "chrom": r["chrom"], "hap": r["hap"], "first": r["first"], "last": r["last"], "gap": None,
+                        "alleles": [rng.randint(0, 1) for _ in range(n)], "copies": rng.randint(1, 2),
+                        "decoy": rng.choice(["lowmapq", "secondary", "duplicate", "supplementary"])})
+    w["decoys"] = dec
+    return w
+
+
 def _gtpair(gt):
     als, _ = parse_gt(gt)
     if len(als) != 2:
